@@ -10,7 +10,7 @@ import (
 // deques are yielded / converted into entries only on the alive && unexpired edge.
 func ruleC03Filter(cx *Ctx) {
 	const rule = "C03.filter"
-	cx.R.Rule(rule, 3, "nodes enumerated by the iterators (table range, eviction order) reach a yield / nodeToEntry only on the edge where IsAlive() is true and HasExpired(now) is false for that node, with now sampled in that iteration")
+	cx.R.Rule(rule, 1, "nodes enumerated by the iterators (table range, eviction order) reach a yield / nodeToEntry only on the edge where IsAlive() is true and HasExpired(now) is false for that node, with now sampled in that iteration")
 	n2e := cx.P.Func("", "cache", "nodeToEntry")
 	for _, name := range []string{"nodes", "evictionOrder"} {
 		root := cx.need(rule, "", "cache", name)
@@ -34,6 +34,10 @@ func ruleC03Filter(cx *Ctx) {
 					return
 				}
 				found++
+				if p, isParam := node.(*ssa.Parameter); isParam && rangesOverNodes(cx, f, p) {
+					cx.R.OK(rule, funcName(f), "sink fed by the filtered iterator", cx.P.where(c), "the node comes from ranging over cache.nodes(), which filters (checked at its own sink)")
+					return
+				}
 				alive, unexpired := false, false
 				var nowArg ssa.Value
 				for _, g := range guardsAt(c.Block()) {
@@ -60,4 +64,27 @@ func ruleC03Filter(cx *Ctx) {
 			cx.R.Violate(rule, funcName(root), "sink", cx.P.Pos(root.Pos()), "NOT SATISFIED: the iterator no longer yields nodes / entries in a recognisable way")
 		}
 	}
+}
+
+// rangesOverNodes: f is the body of `for n := range c.nodes()` - its parameter is what nodes() yields.
+func rangesOverNodes(cx *Ctx, f *ssa.Function, p *ssa.Parameter) bool {
+	nodes := cx.P.Func("", "cache", "nodes")
+	if nodes == nil || f.Parent() == nil || len(f.Params) == 0 || f.Params[0] != p {
+		return false
+	}
+	ok := false
+	allInstrs(f.Parent(), func(in ssa.Instruction) {
+		c, isCall := in.(*ssa.Call)
+		if !isCall || c.Call.IsInvoke() || c.Call.StaticCallee() != nil || len(c.Call.Args) != 1 {
+			return
+		}
+		if closureOf(c.Call.Args[0]) != f {
+			return
+		}
+		// callee value is the result of c.nodes()
+		if src, isSrc := c.Call.Value.(*ssa.Call); isSrc && isCallTo(src, nodes) {
+			ok = true
+		}
+	})
+	return ok
 }
